@@ -677,6 +677,23 @@ def check_opt(ck, s, tainted):
 
 def check_status(ck, s, tainted):
     n = 0
+    if s.name in ("xzgrep", "xzdiff"):
+        # the decompressors and grep/diff must die from SIGPIPE when their reader goes away: with the signal ignored gzip
+        # and bzip2 report "Broken pipe" with a non-zero status (xzdiff's own comment says so), which the scripts then
+        # take for a decompression error (exit 2 for a file that matched / compared fine)
+        ign = None
+        for c, ctx in s.cmds:
+            if c["t"] == "simple" and c["words"] and c["words"][0].plain() == "trap" and len(c["words"]) >= 3:
+                act = c["words"][1].text()
+                sigs = [w.text().strip('"').upper() for w in c["words"][2:]]
+                if act in ("''", '""') and any(x in ("PIPE", "SIGPIPE", "13") for x in sigs):
+                    ign = c
+        n += 1
+        ck.ob("C20-STATUS", "%s:sigpipe-not-ignored" % s.name, ign is None, s.where(ign["line"]) if ign else s.rel,
+              "%s: SIGPIPE is never set to be ignored" % s.name if ign is None else
+              "%s: `trap '' PIPE` makes every child ignore SIGPIPE: when grep/diff stops reading early (-q, -l, -m, a difference "
+              "found) gzip/bzip2 fail with `Broken pipe` and a non-zero status instead of dying from the signal, and the script "
+              "reports an error (2) for a file that is intact" % s.name, key="STATUS:%s:sigpipe-not-ignored" % s.name)
     for (name, v, c, ctx) in s.assigns:
         for p, q in word_cmdsubs(v):
             body = p[1]
@@ -717,6 +734,94 @@ def check_status(ck, s, tainted):
               "xzdiff: a non-zero, non-SIGPIPE decompressor status turns the result into exit 2",
               key="STATUS:xzdiff:exit2")
         n += 2
+        # ... evaluated for the statuses a decompressor can exit with: only 0 is harmless (bzip2 exits 2 for a corrupt
+        # file, xz exits 2 for "unsupported check", gzip 2 for a warning: none of them proves the data was complete)
+        import fnmatch
+
+        class _Exit(Exception):
+            pass
+
+        class _Continue(Exception):
+            pass
+
+        def _w(w, env):
+            t_ = w.text().strip('"')
+            return str(env.get(t_[1:], "")) if t_.startswith("$") else t_
+
+        def _simple(cmd, env):
+            ws = cmd["words"]
+            if not ws:
+                return True
+            w0 = ws[0].text()
+            if w0 == "continue":
+                raise _Continue()
+            if w0 == "exit":
+                raise _Exit(_w(ws[1], env) if len(ws) > 1 else "?")
+            if w0 == "test" and len(ws) == 4:
+                a, op_, b_ = _w(ws[1], env), ws[2].text(), _w(ws[3], env)
+                if op_ in ("-eq", "-ne", "-lt", "-le", "-gt", "-ge"):
+                    a, b_ = int(a), int(b_)
+                    return {"-eq": a == b_, "-ne": a != b_, "-lt": a < b_, "-le": a <= b_, "-gt": a > b_, "-ge": a >= b_}[op_]
+                if op_ in ("=", "!="):
+                    # `$(kill -l $num)` = PIPE : not a signal status in this evaluation
+                    return (op_ == "!=")
+            raise AnalysisBroken("xzdiff: statement `%s` in the status loop not understood" % " ".join(x.text() for x in ws))
+
+        def _exec_list(lst, env):
+            for it in lst["items"]:
+                ok = True
+                for k_, (op_, pl) in enumerate(it["items"]):
+                    if k_ > 0 and ((op_ == "&&" and not ok) or (op_ == "||" and ok)):
+                        continue
+                    cmd = pl["cmds"][0]
+                    if cmd["t"] == "simple":
+                        ok = _simple(cmd, env)
+                    elif cmd["t"] == "case":
+                        val = _w(cmd["word"], env)
+                        for pats, body, aln in cmd["arms"]:
+                            if any(fnmatch.fnmatchcase(val, (pt.text() if hasattr(pt, "text") else str(pt)).strip()) for pt in pats):
+                                _exec_list(body, env)
+                                break
+                        ok = True
+                    elif cmd["t"] == "if":
+                        done = False
+                        for cond, body in cmd["clauses"]:
+                            try:
+                                _exec_list(cond, env)
+                                c_ok = True
+                            except AnalysisBroken:
+                                raise
+                            # the status of a list is the status of its last command: re-evaluate the last simple test
+                            lastc = cond["items"][-1]["items"][-1][1]["cmds"][0]
+                            c_ok = _simple(lastc, env) if lastc["t"] == "simple" else True
+                            if c_ok:
+                                _exec_list(body, env)
+                                done = True
+                                break
+                        if not done and cmd["else"] is not None:
+                            _exec_list(cmd["else"], env)
+                        ok = True
+                    else:
+                        raise AnalysisBroken("xzdiff: compound command `%s` in the status loop not understood" % cmd["t"])
+        wits = None
+        for f_ in fin:
+            for num in (0, 1, 2, 3, 127):
+                res_ = "fallthrough"
+                try:
+                    _exec_list(f_["body"], {"num": num})
+                except _Continue:
+                    res_ = "continue"
+                except _Exit as x_:
+                    res_ = "exit %s" % x_.args[0]
+                want = "continue" if num == 0 else "exit 2"
+                if res_ != want and wits is None:
+                    wits = (num, res_, want, f_["line"])
+        n += 1
+        ck.ob("C20-STATUS", "xzdiff:status-loop", bool(fin) and wits is None, s.where(wits[3]) if wits else s.rel,
+              "xzdiff: decompressor status 0 is skipped, statuses 1, 2, 3 and 127 give exit 2" if wits is None else
+              "xzdiff: a decompressor that exited with status %d makes the status loop `%s` (required: %s): an operand that could "
+              "not be decompressed completely (bzip2 uses 2 for a corrupt file) is compared as if it were intact and the "
+              "script returns diff's verdict instead of 2" % wits[:3], key="STATUS:xzdiff:status-loop")
     if s.name == "xzdiff":
         # each operand is decompressed with the decompressor chosen from *its own* suffix
         for c, ctx in s.cmds:
